@@ -4,10 +4,13 @@ C12 additions.
 
 A. `ExposedInv`: the value the master EXPOSES for a port (`lastRead`, what GET /ports shows) is the cached value
    whenever the remote queue is empty — so after the hub's ticks the exposed value is the newest remote value also
-   when nothing was queued. Proved for every master operation of the model and along every run of the combined
-   action type `MAct` (listen batches / pushed events, ticks, going offline, refresh fetch, reconnect, poll,
-   value-fetch answers, master-side edits). The ONE operation that breaks it is the offline value write
-   (`write_value` stores the user's value in `_cached_value`; `_last_read_value` is not touched): `Guard`.
+   when nothing was queued. `ExposedInvF fix` is what holds along every run of the combined action type `MAct`
+   (listen batches / pushed events, ticks, going offline, refresh fetch, reconnect, poll, value-fetch answers,
+   master-side edits): with `read_value` as found it is `ExposedInv`, and the ONE operation that breaks it is the
+   offline value write (`write_value` stores the user's value in `_cached_value`; `_last_read_value` is not touched):
+   `Guard`; with the repaired `read_value` (`keepPendingValue`) it claims `PortExposed` of the ports with no value
+   pending (while one is pending `lastRead` follows the popped values and `cached` stays the user's), and the
+   offline write is allowed.
 B. Presentation layer (`Scheme`, `getAttr`, `presentKey`, `slaveName`, `Shown`): qtoggleserver/slaves/ports.py
    `MASTER_ATTRS`, `get_attr`, `set_attr` and the `<slave>.<id>` port id.
 -/
@@ -15,17 +18,58 @@ namespace QtVerif.Slave
 
 /-! ### A. The exposed value -/
 
+/-- With nothing queued the exposed value is the cached one. -/
 def PortExposed (p : MPort) : Prop := p.rq = [] → p.lastRead = p.cached
 def ExposedL (l : List MPort) : Prop := ∀ p ∈ l, PortExposed p
 def ExposedInv (m : Master) : Prop := ExposedL m.ports
 
+/-- What holds along the runs, for the behaviour selected by `fix`. With `read_value` as found
+(`keepPendingValue = false`) it is `PortExposed`. Repaired, a port on which a value is pending provisioning keeps the
+user's value cached — there is one (`cached.isSome`: `write_value` stored it, the ticks leave it alone) — while
+`lastRead` follows the values popped from the queue, so `PortExposed` is claimed only of the ports with NO VALUE
+PENDING. -/
+def PortExposedF (fix : Fix) (p : MPort) : Prop :=
+  ((fix.keepPendingValue && p.provValue) = true → p.cached.isSome = true) ∧
+  ((fix.keepPendingValue && p.provValue) = false → PortExposed p)
+def ExposedLF (fix : Fix) (l : List MPort) : Prop := ∀ p ∈ l, PortExposedF fix p
+def ExposedInvF (fix : Fix) (m : Master) : Prop := ExposedLF fix m.ports
+
+/-- No value is pending provisioning on any port. -/
+def NoValuePending (m : Master) : Prop := ∀ p ∈ m.ports, p.provValue = false
+
+theorem portExposed_of_F {fix : Fix} {p : MPort} (h : PortExposedF fix p)
+    (hpv : (fix.keepPendingValue && p.provValue) = false) : PortExposed p := h.2 hpv
+
+theorem portExposedF_of {fix : Fix} {p : MPort} (h : PortExposed p) (hpv : p.provValue = false) :
+    PortExposedF fix p :=
+  ⟨fun hc => (by rw [hpv, Bool.and_false] at hc; cases hc), fun _ => h⟩
+
+/-- `read_value` as found: the run invariant IS `ExposedInv`. -/
+theorem exposedInvF_asFound (fix : Fix) (hk : fix.keepPendingValue = false) (m : Master) :
+    ExposedInvF fix m ↔ ExposedInv m := by
+  constructor
+  · intro h p hp; exact (h p hp).2 (by rw [hk]; rfl)
+  · intro h p hp
+    exact ⟨fun hc => (by rw [hk, Bool.false_and] at hc; cases hc), fun _ => h p hp⟩
+
+/-- Whatever `fix`: with no value pending, the run invariant is `ExposedInv`. -/
+theorem exposedInvF_noValuePending (fix : Fix) (m : Master) (hn : NoValuePending m) :
+    ExposedInvF fix m ↔ ExposedInv m := by
+  constructor
+  · intro h p hp; exact (h p hp).2 (by rw [hn p hp, Bool.and_false])
+  · intro h p hp; exact portExposedF_of (h p hp) (hn p hp)
+
 theorem exposed_init (mode : Mode) : ExposedInv (Master.init mode) := by intro p hp; cases hp
+theorem exposedF_init (fix : Fix) (mode : Mode) : ExposedInvF fix (Master.init mode) := by intro p hp; cases hp
 
 theorem exposed_push (p : MPort) (v : PVal) : PortExposed (p.push v) := by
   intro h; simp [MPort.push] at h
 
-theorem exposedL_updPort {l : List MPort} (i : Nat) (f : MPort → MPort)
-    (hf : ∀ p, PortExposed p → PortExposed (f p)) (h : ExposedL l) : ExposedL (updPort l i f) := by
+theorem exposedF_push (fix : Fix) (p : MPort) (v : PVal) (h : PortExposedF fix p) : PortExposedF fix (p.push v) :=
+  ⟨h.1, fun _ => exposed_push p v⟩
+
+theorem exposedLF_updPort {fix : Fix} {l : List MPort} (i : Nat) (f : MPort → MPort)
+    (hf : ∀ p, PortExposedF fix p → PortExposedF fix (f p)) (h : ExposedLF fix l) : ExposedLF fix (updPort l i f) := by
   intro q hq
   unfold updPort at hq
   obtain ⟨p, hp, rfl⟩ := List.mem_map.mp hq
@@ -33,17 +77,19 @@ theorem exposedL_updPort {l : List MPort} (i : Nat) (f : MPort → MPort)
   · exact hf p (h p hp)
   · exact h p hp
 
-theorem exposed_applyPortUpdate (fix : Fix) (p : MPort) (msg : PortMsg) (h : PortExposed p) :
-    PortExposed (applyPortUpdate fix p msg).1 := by
-  unfold applyPortUpdate PortExposed
+theorem exposedF_applyPortUpdate (fix : Fix) (p : MPort) (msg : PortMsg) (h : PortExposedF fix p) :
+    PortExposedF fix (applyPortUpdate fix p msg).1 := by
+  unfold applyPortUpdate
   simp only
   split
-  · intro hq; simp [MPort.push] at hq
+  · exact ⟨h.1, fun _ hq => (by simp [MPort.push] at hq)⟩
   · exact h
 
-theorem exposed_mkPort (msg : PortMsg) : PortExposed (mkPort msg) := fun _ => rfl
+theorem exposedF_mkPort (fix : Fix) (msg : PortMsg) : PortExposedF fix (mkPort msg) :=
+  ⟨fun hc => (by simp [mkPort] at hc), fun _ _ => rfl⟩
 
-theorem exposed_stepEvent (fix : Fix) (m : Master) (e : Ev) (h : ExposedInv m) : ExposedInv (stepEvent fix m e) := by
+theorem exposed_stepEvent (fix : Fix) (m : Master) (e : Ev) (h : ExposedInvF fix m) :
+    ExposedInvF fix (stepEvent fix m e) := by
   cases e with
   | valueChange i v =>
     rw [stepEvent_valueChange]
@@ -51,12 +97,12 @@ theorem exposed_stepEvent (fix : Fix) (m : Master) (e : Ev) (h : ExposedInv m) :
     · exact h
     · split
       · exact h
-      · exact exposedL_updPort _ _ (fun p _ => exposed_push p v) h
+      · exact exposedLF_updPort _ _ (fun p hp => exposedF_push fix p v hp) h
   | portUpdate msg =>
     rw [stepEvent_portUpdate]
     split
     · exact h
-    · exact exposedL_updPort _ _ (fun p hp => exposed_applyPortUpdate fix p msg hp) h
+    · exact exposedLF_updPort _ _ (fun p hp => exposedF_applyPortUpdate fix p msg hp) h
   | portAdd msg =>
     rw [stepEvent_portAdd]
     split
@@ -64,7 +110,7 @@ theorem exposed_stepEvent (fix : Fix) (m : Master) (e : Ev) (h : ExposedInv m) :
     · intro q hq
       rcases List.mem_append.mp hq with hq | hq
       · exact h q hq
-      · simp only [List.mem_singleton] at hq; subst hq; exact exposed_mkPort msg
+      · simp only [List.mem_singleton] at hq; subst hq; exact exposedF_mkPort fix msg
   | portRemove i =>
     rw [stepEvent_portRemove]
     split
@@ -75,97 +121,124 @@ theorem exposed_stepEvent (fix : Fix) (m : Master) (e : Ev) (h : ExposedInv m) :
     rw [stepEvent_deviceUpdate]
     split <;> exact h
 
-theorem exposed_handleEvents (fix : Fix) (evs : List Ev) (m : Master) (h : ExposedInv m) :
-    ExposedInv (handleEvents fix m evs) :=
-  foldl_preserves ExposedInv (stepEvent fix) (fun a e ha => exposed_stepEvent fix a e ha) evs m h
+theorem exposed_handleEvents (fix : Fix) (evs : List Ev) (m : Master) (h : ExposedInvF fix m) :
+    ExposedInvF fix (handleEvents fix m evs) :=
+  foldl_preserves (ExposedInvF fix) (stepEvent fix) (fun a e ha => exposed_stepEvent fix a e ha) evs m h
 
-theorem exposed_tickPort (p : MPort) (h : PortExposed p) : PortExposed (tickPort p).2 := by
+/-- One `read_value`. As found the popped value becomes both the exposed and the cached one; repaired, with a value
+pending, it becomes the exposed one only and the cached value stays the user's. -/
+theorem exposed_tickPort (fix : Fix) (p : MPort) (h : PortExposedF fix p) : PortExposedF fix (tickPort fix p).2 := by
   unfold tickPort
   split
   · exact h
   · split
     · exact h
-    · intro _; rfl
+    · rename_i v rest _
+      refine ⟨fun hc => ?_, fun hc _ => ?_⟩
+      · have hc' : (fix.keepPendingValue && p.provValue) = true := hc
+        show (if (fix.keepPendingValue && p.provValue) = true then p.cached else v).isSome = true
+        rw [if_pos hc']; exact h.1 hc'
+      · have hc' : (fix.keepPendingValue && p.provValue) = false := hc
+        show v = (if (fix.keepPendingValue && p.provValue) = true then p.cached else v)
+        rw [if_neg (by rw [hc']; decide)]
 
-theorem exposed_drainPort (n : Nat) (p : MPort) (h : PortExposed p) : PortExposed (drainPort n p).2 := by
+theorem exposed_drainPort (fix : Fix) (n : Nat) (p : MPort) (h : PortExposedF fix p) :
+    PortExposedF fix (drainPort fix n p).2 := by
   induction n generalizing p with
   | zero => exact h
   | succ k ih =>
     unfold drainPort
     split
     · exact h
-    · exact ih _ (exposed_tickPort p h)
+    · exact ih _ (exposed_tickPort fix p h)
 
-theorem exposed_drain (m : Master) (h : ExposedInv m) : ExposedInv (drain m).2 := by
+theorem exposed_drain (fix : Fix) (m : Master) (h : ExposedInvF fix m) : ExposedInvF fix (drain fix m).2 := by
   intro q hq
   unfold drain at hq
   simp only [List.map_map] at hq
   obtain ⟨p, hp, rfl⟩ := List.mem_map.mp hq
-  exact exposed_drainPort _ p (h p hp)
+  exact exposed_drainPort fix _ p (h p hp)
 
-theorem exposed_fetchPorts (fix : Fix) (m : Master) (resp : List PortMsg) (h : ExposedInv m) :
-    ExposedInv (fetchPorts fix m resp) := by
+theorem exposed_fetchPorts (fix : Fix) (m : Master) (resp : List PortMsg) (h : ExposedInvF fix m) :
+    ExposedInvF fix (fetchPorts fix m resp) := by
   rw [fetchPorts_eq]
-  have h1 := foldl_preserves ExposedInv (fetch1 fix (m.ports.map (·.id)))
+  have h1 := foldl_preserves (ExposedInvF fix) (fetch1 fix (m.ports.map (·.id)))
     (fun a b ha => by unfold fetch1; split; exact exposed_stepEvent fix a _ ha; exact ha) resp m h
-  have h2 := foldl_preserves ExposedInv (fetch2 fix (m.ports.map (·.id)))
+  have h2 := foldl_preserves (ExposedInvF fix) (fetch2 fix (m.ports.map (·.id)))
     (fun a b ha => by unfold fetch2; split; exact ha; exact exposed_stepEvent fix a _ ha) resp _ h1
   intro q hq
   exact h2 q (List.mem_filter.mp hq).1
 
-theorem exposed_ite (fix : Fix) (c : Prop) [Decidable c] (a : Master) (e : Ev) (h : ExposedInv a) :
-    ExposedInv (if c then stepEvent fix a e else a) := by
+theorem exposed_ite (fix : Fix) (c : Prop) [Decidable c] (a : Master) (e : Ev) (h : ExposedInvF fix a) :
+    ExposedInvF fix (if c then stepEvent fix a e else a) := by
   split
   · exact exposed_stepEvent fix a e h
   · exact h
 
-theorem exposed_pollPorts (fix : Fix) (m : Master) (resp : List PortMsg) (h : ExposedInv m) :
-    ExposedInv (pollPorts fix m resp) := by
+theorem exposed_pollPorts (fix : Fix) (m : Master) (resp : List PortMsg) (h : ExposedInvF fix m) :
+    ExposedInvF fix (pollPorts fix m resp) := by
   rw [pollPorts_eq]
-  have h1 := foldl_preserves ExposedInv (poll1 fix (m.ports.map (·.id)))
+  have h1 := foldl_preserves (ExposedInvF fix) (poll1 fix (m.ports.map (·.id)))
     (fun a b ha => by unfold poll1; split; exact ha; exact exposed_stepEvent fix a _ ha) resp m h
-  have h2 := foldl_preserves ExposedInv (poll2 fix (resp.map (·.id)))
+  have h2 := foldl_preserves (ExposedInvF fix) (poll2 fix (resp.map (·.id)))
     (fun a b ha => by unfold poll2; split; exact ha; exact exposed_stepEvent fix a _ ha) (m.ports.map (·.id)) _ h1
-  refine foldl_preserves ExposedInv (poll3 fix resp) ?_ m.ports _ h2
+  refine foldl_preserves (ExposedInvF fix) (poll3 fix resp) ?_ m.ports _ h2
   intro a lp ha
   unfold poll3
   split
   · exact ha
   · exact exposed_ite fix _ _ _ (exposed_ite fix _ _ _ ha)
 
-theorem exposed_valueResp (m : Master) (i : Nat) (v : PVal) (h : ExposedInv m) : ExposedInv (valueResp m i v) := by
+theorem exposed_valueResp (fix : Fix) (m : Master) (i : Nat) (v : PVal) (h : ExposedInvF fix m) :
+    ExposedInvF fix (valueResp m i v) := by
   unfold valueResp
   split
   · exact h
-  · exact exposedL_updPort _ _ (fun p _ => exposed_push p _) h
+  · exact exposedLF_updPort _ _ (fun p hp => exposedF_push fix p _ hp) h
 
 /-- An ONLINE value write: the written value is queued as the newest remote value (or nothing changes). -/
-theorem exposed_editValue_online (m : Master) (hon : m.online = true) (i : Nat) (v : Int) (ok : Bool)
-    (h : ExposedInv m) : ExposedInv (editValue m i v ok).1 := by
+theorem exposed_editValue_online (fix : Fix) (m : Master) (hon : m.online = true) (i : Nat) (v : Int) (ok : Bool)
+    (h : ExposedInvF fix m) : ExposedInvF fix (editValue m i v ok).1 := by
   unfold editValue
   simp only [hon, if_true]
   split
-  · exact exposedL_updPort _ _ (fun p _ => exposed_push p _) h
+  · exact exposedLF_updPort _ _ (fun p hp => exposedF_push fix p _ hp) h
   · exact h
 
-theorem exposed_editAttr (m : Master) (i n : Nat) (v : Int) (h : ExposedInv m) : ExposedInv (editAttr m i n v).1 := by
+/-- An OFFLINE value write under the repaired `read_value`: the port now has a value pending, and it is cached. -/
+theorem exposed_editValue_repaired (fix : Fix) (hk : fix.keepPendingValue = true) (m : Master) (i : Nat) (v : Int)
+    (ok : Bool) (h : ExposedInvF fix m) : ExposedInvF fix (editValue m i v ok).1 := by
+  cases hon : m.online with
+  | true => exact exposed_editValue_online fix m hon i v ok h
+  | false =>
+    unfold editValue
+    simp only [hon, Bool.false_eq_true, if_false]
+    refine exposedLF_updPort _ _ (fun p _ => ⟨fun _ => rfl, fun hc => ?_⟩) h
+    have hc' : (fix.keepPendingValue && true) = false := hc
+    rw [hk] at hc'; cases hc'
+
+theorem exposed_editAttr (fix : Fix) (m : Master) (i n : Nat) (v : Int) (h : ExposedInvF fix m) :
+    ExposedInvF fix (editAttr m i n v).1 := by
   unfold editAttr
   split
   · exact h
-  · exact exposedL_updPort _ _ (fun p hp => hp) h
+  · exact exposedLF_updPort _ _ (fun p hp => hp) h
 
-theorem exposed_editDev (m : Master) (n : Nat) (v : Int) (h : ExposedInv m) : ExposedInv (editDev m n v).1 := by
+theorem exposed_editDev (fix : Fix) (m : Master) (n : Nat) (v : Int) (h : ExposedInvF fix m) :
+    ExposedInvF fix (editDev m n v).1 := by
   unfold editDev
   split <;> exact h
 
-theorem exposed_goOffline (m : Master) (h : ExposedInv m) : ExposedInv (goOffline m) := h
+theorem exposed_goOffline (fix : Fix) (m : Master) (h : ExposedInvF fix m) : ExposedInvF fix (goOffline m) := h
 
 /-- Every pending value will be pushed with a body and accepted (trivially true when no value is pending). -/
 def PushesAccepted (fix : Fix) (rf : List Nat) (l : List MPort) : Prop :=
   ∀ p ∈ l, p.pendValue.isSome → fix.valueBody = true ∧ rf.contains p.id = false
 
-theorem exposedL_provisionPorts (fix : Fix) (rf : List Nat) (l : List MPort) (h : ExposedL l)
-    (hg : PushesAccepted fix rf l) : ExposedL (provisionPorts fix rf l).2 := by
+/-- `apply_provisioning` clears the pending value; the pushed value has been queued, so nothing is claimed of the
+exposed value until the ticks have read it. -/
+theorem exposedL_provisionPorts (fix : Fix) (rf : List Nat) (l : List MPort) (h : ExposedLF fix l)
+    (hg : PushesAccepted fix rf l) : ExposedLF fix (provisionPorts fix rf l).2 := by
   induction l with
   | nil => intro p hp; cases hp
   | cons a t ih =>
@@ -175,27 +248,42 @@ theorem exposedL_provisionPorts (fix : Fix) (rf : List Nat) (l : List MPort) (h 
     · subst hq
       have ha := h a (List.mem_cons_self ..)
       have hga := hg a (List.mem_cons_self ..)
-      unfold provisionPort PortExposed
-      simp only
-      cases hpv : a.pendValue with
-      | none => exact ha
-      | some v =>
-        obtain ⟨g1, g2⟩ := hga (by rw [hpv]; rfl)
-        simp only [g1, g2, Bool.not_false, Bool.and_self, if_true]
-        intro hq; simp at hq
+      refine ⟨fun hc => ?_, fun _ => ?_⟩
+      · have hc' : (fix.keepPendingValue && false) = true := hc
+        rw [Bool.and_false] at hc'; cases hc'
+      · unfold provisionPort PortExposed
+        simp only
+        cases hpv : a.pendValue with
+        | none =>
+          cases hc : (fix.keepPendingValue && a.provValue) with
+          | false => exact ha.2 hc
+          | true =>
+            have h1 := ha.1 hc
+            have h2 : a.provValue = true := by
+              cases hx : a.provValue with
+              | true => rfl
+              | false => rw [hx, Bool.and_false] at hc; cases hc
+            unfold MPort.pendValue at hpv
+            rw [h2] at hpv
+            simp only [if_true] at hpv
+            rw [hpv] at h1; cases h1
+        | some v =>
+          obtain ⟨g1, g2⟩ := hga (by rw [hpv]; rfl)
+          simp only [g1, g2, Bool.not_false, Bool.and_self, if_true]
+          intro hq; simp at hq
     · exact ih (fun p hp => h p (List.mem_cons_of_mem _ hp)) (fun p hp => hg p (List.mem_cons_of_mem _ hp)) q hq
 
-theorem exposed_applyProvisioning (fix : Fix) (rf : List Nat) (m : Master) (h : ExposedInv m)
-    (hg : PushesAccepted fix rf m.ports) : ExposedInv (applyProvisioning fix rf m).2 := by
-  show ExposedL (applyProvisioning fix rf m).2.ports
+theorem exposed_applyProvisioning (fix : Fix) (rf : List Nat) (m : Master) (h : ExposedInvF fix m)
+    (hg : PushesAccepted fix rf m.ports) : ExposedInvF fix (applyProvisioning fix rf m).2 := by
+  show ExposedLF fix (applyProvisioning fix rf m).2.ports
   rw [applyProvisioning_ports]
   exact exposedL_provisionPorts fix rf m.ports h hg
 
 /-- `_handle_online`, both modes, whatever the refresh fetches answer. -/
 theorem exposed_handleOnline (fix : Fix) (rf : List Nat) (m : Master) (d : Option Attrs)
-    (ps : Option (List PortMsg)) (h : ExposedInv m) (hg : PushesAccepted fix rf m.ports) :
-    ExposedInv (handleOnline fix rf m d ps).2 := by
-  have h1 : ExposedInv (applyProvisioning fix rf { m with online := true }).2 :=
+    (ps : Option (List PortMsg)) (h : ExposedInvF fix m) (hg : PushesAccepted fix rf m.ports) :
+    ExposedInvF fix (handleOnline fix rf m d ps).2 := by
+  have h1 : ExposedInvF fix (applyProvisioning fix rf { m with online := true }).2 :=
     exposed_applyProvisioning fix rf { m with online := true } h hg
   unfold handleOnline
   cases m.mode with
@@ -210,8 +298,8 @@ theorem exposed_handleOnline (fix : Fix) (rf : List Nat) (m : Master) (d : Optio
 
 /-- `_provision_and_update` (pushed-events mode). -/
 theorem exposed_provisionAndUpdate (fix : Fix) (rf : List Nat) (m : Master) (d : Option Attrs)
-    (ps : Option (List PortMsg)) (h : ExposedInv m) (hg : PushesAccepted fix rf m.ports) :
-    ExposedInv (provisionAndUpdate fix rf m d ps).2 := by
+    (ps : Option (List PortMsg)) (h : ExposedInvF fix m) (hg : PushesAccepted fix rf m.ports) :
+    ExposedInvF fix (provisionAndUpdate fix rf m d ps).2 := by
   have h1 := exposed_applyProvisioning fix rf m h hg
   unfold provisionAndUpdate
   cases d with
@@ -240,7 +328,7 @@ inductive MAct
 
 def mact (fix : Fix) (m : Master) : MAct → Master
   | .events evs => handleEvents fix m evs
-  | .tick => (drain m).2
+  | .tick => (drain fix m).2
   | .goOffline => goOffline m
   | .fetch resp => fetchPorts fix m resp
   | .reconnect rf d ps => (handleOnline fix rf m d ps).2
@@ -254,11 +342,13 @@ def mact (fix : Fix) (m : Master) : MAct → Master
 
 def mrun (fix : Fix) (m : Master) (l : List MAct) : Master := l.foldl (mact fix) m
 
-/-- The side conditions: value writes are made while the slave is online (C12's standing situation; the offline
-write is C13's subject and is the one operation that lets the exposed value lag: `exposed_broken_by_offline_write`),
-and a reconnect pushes the values that are pending with a body the slave accepts. -/
+/-- The side conditions. With `read_value` as found, value writes are made while the slave is online (C12's standing
+situation; the offline write is C13's subject and is the one operation that lets the exposed value lag with nothing
+pending being recorded in the invariant: `exposed_broken_by_offline_write`); with the repaired `read_value` the
+offline write is allowed too (the port then has a value pending, which `PortExposedF` accounts for). A reconnect
+pushes the values that are pending with a body the slave accepts. -/
 def Guard (fix : Fix) (m : Master) : MAct → Prop
-  | .editValue _ _ _ => m.online = true
+  | .editValue _ _ _ => m.online = true ∨ fix.keepPendingValue = true
   | .reconnect rf _ _ => PushesAccepted fix rf m.ports
   | .sync rf _ _ => PushesAccepted fix rf m.ports
   | _ => True
@@ -281,42 +371,57 @@ def GuardedRun.dec (fix : Fix) : (m : Master) → (l : List MAct) → Decidable 
 
 instance (fix : Fix) (m : Master) (l : List MAct) : Decidable (GuardedRun fix m l) := GuardedRun.dec fix m l
 
-theorem exposed_mact (fix : Fix) (m : Master) (a : MAct) (h : ExposedInv m) (hg : Guard fix m a) :
-    ExposedInv (mact fix m a) := by
+theorem exposed_mact (fix : Fix) (m : Master) (a : MAct) (h : ExposedInvF fix m) (hg : Guard fix m a) :
+    ExposedInvF fix (mact fix m a) := by
   cases a with
   | events evs => exact exposed_handleEvents fix evs m h
-  | tick => exact exposed_drain m h
+  | tick => exact exposed_drain fix m h
   | goOffline => exact h
   | fetch resp => exact exposed_fetchPorts fix m resp h
   | reconnect rf d ps => exact exposed_handleOnline fix rf m d ps h hg
   | sync rf d ps => exact exposed_provisionAndUpdate fix rf m d ps h hg
   | pollDev a => exact exposed_stepEvent fix m _ h
   | pollPorts resp => exact exposed_pollPorts fix m resp h
-  | valueResp id v => exact exposed_valueResp m id v h
-  | editValue id v ok => exact exposed_editValue_online m hg id v ok h
-  | editAttr id n v => exact exposed_editAttr m id n v h
-  | editDev n v => exact exposed_editDev m n v h
+  | valueResp id v => exact exposed_valueResp fix m id v h
+  | editValue id v ok =>
+    rcases hg with hg | hg
+    · exact exposed_editValue_online fix m hg id v ok h
+    · exact exposed_editValue_repaired fix hg m id v ok h
+  | editAttr id n v => exact exposed_editAttr fix m id n v h
+  | editDev n v => exact exposed_editDev fix m n v h
 
 theorem exposed_mrun (fix : Fix) (l : List MAct) :
-    ∀ m, ExposedInv m → GuardedRun fix m l → ExposedInv (mrun fix m l) := by
+    ∀ m, ExposedInvF fix m → GuardedRun fix m l → ExposedInvF fix (mrun fix m l) := by
   induction l with
   | nil => intro m h _; exact h
   | cons a r ih => intro m h hg; exact ih _ (exposed_mact fix m a h hg.1) hg.2
 
 /-- After the hub's ticks an enabled port EXPOSES its newest remote value and nothing is left queued —
-also when nothing was queued (`PortExposed`). -/
-theorem exposed_after_ticks (p : MPort) (he : p.enabled = true) (hx : PortExposed p) :
-    (drainPort p.rq.length p).2.lastRead = p.lastRemote ∧ (drainPort p.rq.length p).2.rq = [] ∧
-    (drainPort p.rq.length p).2.attrs = p.attrs ∧ (drainPort p.rq.length p).2.id = p.id := by
-  refine ⟨?_, ?_, (drainPort_static _ p).2.2, drainPort_id _ p⟩
+also when nothing was queued (`PortExposed`). (`lastRead` does not depend on `keepPendingValue`; with a value pending
+under the repaired `read_value`, `p.lastRemote` is the newest value the SLAVE reported when something was queued.) -/
+theorem exposed_after_ticks (fix : Fix) (p : MPort) (he : p.enabled = true) (hx : PortExposed p) :
+    (drainPort fix p.rq.length p).2.lastRead = p.lastRemote ∧ (drainPort fix p.rq.length p).2.rq = [] ∧
+    (drainPort fix p.rq.length p).2.attrs = p.attrs ∧ (drainPort fix p.rq.length p).2.id = p.id := by
+  refine ⟨?_, ?_, (drainPort_static fix _ p).2.2, drainPort_id fix _ p⟩
   · by_cases hq : p.rq = []
-    · rw [drainPort_nil _ p hq, hx hq]
+    · rw [drainPort_nil fix _ p hq, hx hq]
       unfold MPort.lastRemote
       rw [hq]; rfl
-    · rw [drainPort_spec _ p he (Nat.le_refl _)]
-      exact drained_lastRead p hq
-  · rw [drainPort_spec _ p he (Nat.le_refl _)]
-    exact drained_rq p
+    · rw [drainPort_spec fix _ p he (Nat.le_refl _)]
+      exact drained_lastRead fix p hq
+  · rw [drainPort_spec fix _ p he (Nat.le_refl _)]
+    exact drained_rq fix p
+
+/-- While a value is pending under the repaired `read_value`, the ticks expose the queued slave values (`lastRead`)
+but the cached value — the one the reconnect will push — stays the user's. -/
+theorem pending_value_cached_after_ticks (fix : Fix) (hk : fix.keepPendingValue = true) (p : MPort)
+    (he : p.enabled = true) (hpv : p.provValue = true) :
+    (drainPort fix p.rq.length p).2.cached = p.cached ∧ (drainPort fix p.rq.length p).2.provValue = true ∧
+    (drainPort fix p.rq.length p).2.rq = [] ∧
+    (p.rq ≠ [] → (drainPort fix p.rq.length p).2.lastRead = p.lastRemote) := by
+  rw [drainPort_spec fix _ p he (Nat.le_refl _)]
+  exact ⟨(drained_cached_pending fix p hk hpv).1, (drained_cached_pending fix p hk hpv).2, drained_rq fix p,
+    drained_lastRead fix p⟩
 
 /-! ### B. Presentation: what GET /ports shows for a mirrored port -/
 
